@@ -1,6 +1,10 @@
 import Sourmash.Model.Scaled
+import Sourmash.Lemmas.ScaledBounds
 /-! Property C14 — the scaled value a sketch reports is the one it was created with.
-Property theorems only; helper lemmas live in `Sourmash/Lemmas/`. -/
+Property theorems only; helper lemmas live in `Sourmash/Lemmas/`
+(`Binary64` rounding step, `RnDiv` binade selection, `ScaledVal` value-level error/monotonicity,
+`ScaledBounds` the two conversions). All statements are about the exact integer model of the
+binary64 arithmetic in `Model/Scaled.lean`, which `./check C14` compares with the Rust code. -/
 namespace Sourmash.C14
 open Scaled
 
@@ -17,5 +21,60 @@ theorem roundtrip_trunc_cex :
     scaledForMaxHashTrunc (maxHashForScaled 93) = 92 := by decide
 /-- the repaired code does at that point (the unbounded statement is `roundtrip`, below) -/
 theorem roundtrip_93 : scaledForMaxHash (maxHashForScaled 93) = 93 := by decide
+
+/-- T-roundtrip (the flagship clause): a sketch created at `s ≤ 2^31` reports `scaled = s`.
+    Two correctly rounded divisions and one truncation keep `2^64 / max_hash` inside
+    `(s − ½, s + ½)`; the final round-half-away cast returns `s`. -/
+theorem roundtrip : ∀ s, 1 ≤ s → s ≤ 2^31 → scaledForMaxHash (maxHashForScaled s) = s := by
+  intro s h1 h2
+  rcases Nat.lt_or_ge s 2 with h | h
+  · have : s = 1 := by omega
+    subst this; decide
+  · exact roundtrip_ge2 s h h2
+example : scaledForMaxHash (maxHashForScaled 1000) = 1000 := roundtrip 1000 (by decide) (by decide)
+example : scaledForMaxHash (maxHashForScaled (2^31)) = 2^31 := roundtrip _ (by decide) (by decide)
+example : (1 : Nat) ≤ 2^31 ∧ (1:Nat) ≤ 1 := by decide
+
+/-- T-antitone: a larger scaled never gives a larger ceiling, on the whole 64-bit range
+    (`u64 → f64` and the correctly rounded division are monotone, the truncating cast too). -/
+theorem maxHash_antitone :
+    ∀ s t, 1 ≤ s → s ≤ t → t < 2^64 → maxHashForScaled t ≤ maxHashForScaled s := by
+  intro s t h1 hst _
+  rcases Nat.lt_or_ge s 2 with h | h
+  · have : s = 1 := by omega
+    subst this
+    rw [maxHash_one]; exact maxHash_le t
+  · exact maxHash_antitone_ge2 s t h hst
+example : maxHashForScaled 2000 ≤ maxHashForScaled 1000 :=
+  maxHash_antitone 1000 2000 (by decide) (by decide) (by decide)
+example : maxHashForScaled (2^64 - 1) ≤ maxHashForScaled (2^53 + 1) :=
+  maxHash_antitone _ _ (by decide) (by decide) (by decide)
+
+/-- T-ceiling_close: `|max_hash − 2^64/s| < 1 + (2^64/s)·2^−52` for `2 ≤ s < 2^64`, cross-multiplied
+    by `s·2^52`; the absolute value is written with both truncated subtractions
+    (exactly one of them is non-zero). -/
+theorem ceiling_close : ∀ s, 2 ≤ s → s < 2^64 →
+    (maxHashForScaled s * s - 2^64) * 2^52 < s * 2^52 + 2^64 ∧
+    (2^64 - maxHashForScaled s * s) * 2^52 < s * 2^52 + 2^64 := by
+  intro s hs _
+  have ⟨k1, k2⟩ := maxHash_bounds s hs
+  have e : (maxHashForScaled s + 1) * s = maxHashForScaled s * s + s := by
+    rw [Nat.add_mul, Nat.one_mul]
+  rw [e] at k2
+  generalize maxHashForScaled s * s = K at *
+  omega
+example : (maxHashForScaled 1000 * 1000 - 2^64) * 2^52 < 1000 * 2^52 + 2^64 ∧
+    (2^64 - maxHashForScaled 1000 * 1000) * 2^52 < 1000 * 2^52 + 2^64 :=
+  ceiling_close 1000 (by decide) (by decide)
+
+/-- the same bound with `Int.natAbs` -/
+theorem ceiling_close_natAbs : ∀ s, 2 ≤ s → s < 2^64 →
+    Int.natAbs (((maxHashForScaled s * s : Nat) : Int) - 2^64) * 2^52 < s * 2^52 + 2^64 := by
+  intro s hs hlt
+  have ⟨a, b⟩ := ceiling_close s hs hlt
+  generalize maxHashForScaled s * s = K at *
+  omega
+example : Int.natAbs (((maxHashForScaled 3 * 3 : Nat) : Int) - 2^64) * 2^52 < 3 * 2^52 + 2^64 :=
+  ceiling_close_natAbs 3 (by decide) (by decide)
 
 end Sourmash.C14
